@@ -81,6 +81,12 @@ CHECKS = {
         "Histories of 2-5 Parallel calls on the loky backend (with / without a with block, n_jobs 2-4) get one injected worker death: SIGKILL / SIGSEGV / os._exit / SIGTERM at argument unpickling, task start, mid-task, task end, result pickling, while the result message is being written (small and large), while idle between calls, or during the next call's start-up. Each call must return exactly the expected list or raise a BrokenProcessPool subclass, at most one call may fail per fault, the following call must be exact and computed by live pids, and the history must finish within the watchdog - a run that does not is a hang only when two stack dumps 10-15 s apart are identical.",
         "Quick enumerates every instant x signal once; the cross product with victims / n_jobs / call position is sampled in thorough. Wall-clock only produces inconclusive verdicts; the known hang (partial result message) is keyed by the blocked frame, not by the instant.",
         "3/C10", "fsshim"),
+    "C12": (
+        "exploration",
+        "history monitor: executed define/call histories over same-named function versions that return their own tag and log their executions; in-session (exec'd cells, lambdas, nested, module reload, __code__ swaps incl. forced id reuse) and across fresh processes sharing the cache",
+        "Histories of define(version k) / call(live version j, argument a) over <= 3 versions are enumerated exhaustively up to length 4 (quick) / 5 (thorough) and sampled up to length 12 in five same-session styles, and run as sequences of fresh processes (module file or __main__ script rewritten between sessions, including sessions that change nothing). Every call must return the tag of the code that was called and execute nothing else; a session whose code did not change must not recompute entries that existed.",
+        "Source is what joblib reads from disk: in the reload style each definition is called once before the next rewrite; closures differing only in captured values are outside the statement.",
+        "3/C12", "harness"),
     "C13": (
         "exploration",
         "model-based runtime monitor: every operation on the real BinaryZlibFile/BinaryGzipFile is mirrored on a reference stream; stdlib decoders check produced bytes; per-operation line/CPU/address-space budgets decide non-termination",
